@@ -15,6 +15,16 @@ CLAIMED = {
                 ref="2 C02", note="Coq kernel+vm_compute; hand-written model coq/C02/Model.v; torch Subset/ConcatDataset constructors and "
                 "bisect trusted; arbitrary attribute delegation exercised for a few names only",
                 technique="Coq proofs (structural induction over dataset stacks) over a hand-written model + vm_compute correspondence with the real dataset classes"),
+    "C03": dict(text="Coq theorems (41) for every class layout, size, parameter and draw sequence: class filter = filter of the ids in original "
+                     "order; index/percent ranges are contiguous blocks and complementary ranges partition the dataset for every bound incl. "
+                     "0 and 1; shuffle is a permutation; sort-by-class is THE stable sort (Permutation + sorted + ties in original order, unique); "
+                     "intra-class shuffle keeps the class sequence; repeat = whole round-robin copies with (k-1)n < m <= kn; oversampling keeps all, "
+                     "multiply reaches max/2 < count <= max, exact reaches max and terminates (absent classes included; without the guard no fuel "
+                     "suffices); few-shot / class-wise subsets take min(shots,count) / the rank selection per class. Model tied to /repo by "
+                     "constructing the real wrappers on generated layouts with recorded draws every run.",
+                ref="2 C03 / 7.9", note="Coq kernel+vm_compute; hand-written model coq/C03/Model.v over an abstract percent-cut record, the binary64 "
+                "instance (ModelFloat.v, PrimFloat) is used by the correspondence only and its contract is evaluated per case, not proved",
+                technique="Coq proofs (list induction, Permutation/Sorted, fuel-bounded loops) over a hand-written model + vm_compute correspondence with the real wrappers"),
     "C04": dict(text="Coq theorems (all N, B, budgets, configs, epoch permutations): the model of _training_loop equals a "
                      "closed-form spec (epoch-wise concatenation cut by batch size, stop at the first update reaching "
                      "the budget, termination within the remaining budget); model tied to /repo by evaluating model, "
@@ -48,6 +58,15 @@ CLAIMED = {
                 ref="2 C10", note="Coq kernel+vm_compute; hand-written model coq/C10/Model.v; float32 pixel arithmetic and half-box sqrt "
                 "not modelled (descriptors decoded with stated tolerance)",
                 technique="Coq proofs (QArith, induction over the batch) over a hand-written model + vm_compute correspondence with the real collator"),
+    "C11": dict(text="Coq theorems for all sizes, shapes (arbitrary equal rank), class counts, weights in [0,1] over Q and draw sequences within "
+                     "the contract: returned labels are distributions; data and label are mixed with the one drawn partner and weight or both "
+                     "untouched (plain one-hot); total_p >= 1 mixes every sample; every duplicate-free request over {x, class, index} in any order "
+                     "is a projection of the one sample drawn from seed+idx (through ModeWrapper's fuse plan); shape unification = first sample's "
+                     "shape, common box preserved, rest zero; partner in range. Model tied to /repo by id-encoded datasets with spy/scripted "
+                     "generators every run.",
+                ref="2 C11 / 7.10", note="Coq kernel+vm_compute; hand-written model coq/C11/Model.v, exact over Q (float32 output compared with "
+                "tolerance 2e-3 / 1e-5); datasets must hand out fresh x tensors (measured, stated)",
+                technique="Coq proofs (QArith, induction over tensor shapes) over a hand-written model + vm_compute correspondence with the real wrapper"),
     "C12": dict(text="Coq theorems for all n, world sizes, ranks, repeats, epochs and all global draws: every rank's stream has exactly "
                      "len(sampler) entries, the round-robin merge of the rank streams is the global draw with only trailing entries "
                      "dropped or wrapped, the draw's seed argument is seed+epoch and has no rank argument, repeated augmentation "
@@ -56,6 +75,15 @@ CLAIMED = {
                 ref="2 C12", note="Coq kernel+vm_compute; hand-written model coq/C12/Model.v; that a different seed gives a different "
                 "torch draw is observed, not proved",
                 technique="Coq proofs (list induction, div/mod arithmetic) over a hand-written model + vm_compute correspondence with the real samplers on all ranks"),
+    "C17": dict(text="Coq theorems (16) for every grid, budget, ratio bound, batch size, step counter and contract-satisfying draw sequence: DINO - "
+                     "B*V masks of the grid size, at most floor(B*V*p) non-empty, popcount = num_masked <= target <= floor(ratio_max*P) as loop "
+                     "invariant, generation terminates within the fuel; I-JEPA - rows strictly increasing within [0,H*W), predictor rows full "
+                     "rectangles of the step's size, encoder rows disjoint from the same sample's predictor rows inside the property's premise "
+                     "(and no retry there), common lengths, block sizes a function of the step counter only, batch passed through. Model tied to "
+                     "/repo by running the real collators with spies on both generators every run.",
+                ref="2 C17 / 7.12", note="Coq kernel+vm_compute; hand-written model coq/C17/Model.v; float32 linspace / int(round(sqrt)) block sizes "
+                "are recorded oracle values; outside the premise the I-JEPA loop may not terminate (not claimed, recorded)",
+                technique="Coq proofs (loop invariants, fuel-bounded loops, sorted/NoDup lists) over a hand-written model + vm_compute correspondence with the real collators"),
     "C18": dict(text="Coq theorems for every list of member collators (any modes, any collate functions): default collation at most once and "
                      "exactly once where asked, (batch, ctx) returned iff configured, ctx keys neither lost nor invented, layout preserved, "
                      "padding = original ++ zeros up to the batch maximum and other fields as default collation, with and without "
@@ -64,6 +92,25 @@ CLAIMED = {
                 ref="2 C18", note="Coq kernel+vm_compute; hand-written model coq/C18/Model.v; torch default_collate / pad_sequence "
                 "semantics trusted (operations observed by wrapping them)",
                 technique="Coq proofs (induction over the member list / fields) over a hand-written state-machine model + vm_compute correspondence with the real collators"),
+    "C13": dict(text="Coq theorems (20) for all label layouts, sizes, world sizes, spc, L/U and contract-satisfying draws: class-balanced epoch has "
+                     "exactly spc indices of every class, reuse is even (floor/ceil of spc/k), the pool loop terminates iff the pool is non-empty, "
+                     "rank streams interleave into a prefix of the global draw; semi-supervised stream alternates L labeled / U unlabeled by "
+                     "position, every aligned block of |pool| picks is a permutation of the pool, ranks are equally long, length modes; weighted "
+                     "sampler never repeats an index within an epoch across ranks; executable spec functions are sound w.r.t. the Prop spec. "
+                     "Model tied to /repo by running all ranks of the real samplers with torch draw spies every run.",
+                ref="2 C13 / 7.11", note="Coq kernel+vm_compute; reuses coq/C12/Model.v for class-balanced/weighted, coq/C13/Model.v for the semi "
+                "sampler; distinct per-rank seeds of the semi sampler observed, not proved",
+                technique="Coq proofs (list induction, Permutation, fuel-bounded loops) over hand-written models + vm_compute correspondence with the real samplers on all ranks"),
+    "C19": dict(text="Coq theorems (10) for every wrapped dataset, transform, draw sequence, number of processes, program and UNBOUNDED schedule: "
+                     "the log of any sequential history equals the spec (every access returns transform(base i) or the base's exception, a load "
+                     "happens exactly when i was not fetched since the last clear, reload after clear); concurrent small-step semantics over "
+                     "arbitrary interleavings: dict is a subset of graph(base), no process observes another value, no KeyError escapes "
+                     "(conc_no_error - true of the repaired reader; the pre-fix reader is refuted by a 6-step schedule), one transform call per "
+                     "access, progress. Model tied to /repo by sequential histories on the real Manager dict and by replaying model schedules on "
+                     "the real class through a scheduling dict proxy every run (thorough: real processes).",
+                ref="2 C19 / 7.13", note="Coq kernel+vm_compute; hand-written model coq/C19/Model.v; Manager proxy operations assumed atomic and by value, "
+                "pickling faithful",
+                technique="Coq proofs (invariant over a small-step interleaving semantics, induction over schedules) + vm_compute correspondence incl. deterministic schedule replay on the real class"),
     "C16": dict(text="Coq theorems for all label layouts / parameters / draw sequences: bulk accessor = map of the per-sample "
                      "accessor for each of the eight label-rewriting wrappers, labels within the announced class shape (or -1 where "
                      "allowed), all-gather permutation shape, smoothing/one-hot vectors over Q are distributions with the original "
